@@ -38,8 +38,10 @@ func FuzzReadMask(f *testing.F) {
 		if err := proto.Unmarshal(data, msg); err != nil {
 			return
 		}
-		if len(msg.ProtoReflect().GetUnknown()) > 0 {
-			msg.ProtoReflect().SetUnknown(nil)
+		// unknown fields (at any depth) are outside the statement: a projection keeps or drops them as protobuf-go's
+		// field-mask utilities happen to, and the property only speaks about the message's fields
+		if !lib.Sanitize(msg) {
+			return
 		}
 		if len(paths) > 200 {
 			return
